@@ -184,8 +184,14 @@ def gen_struct(rng, idx, allow_nested=True):
         wl.append(rng.choice([f"({t0}, {t1}): Marker", f"Vec<{t0}>: Marker", f"[{t0}; 2]: Marker", f"({t1},): Marker"])); feats.append('where_on_compound_type')
     if tparams and idx % 3 == 1 and not constn:
         gl[-1] = gl[-1] + " = i64"; feats.append('default_type_param')
-    if constn: gl.append("const N: usize"); feats.append('const_generic')
-    if constm: gl.append("const M: usize"); feats.append('two_const_generics')
+    cdef_m = rng.choice([' = 2', ' = 0x2', ' = { 1 + 1 }', ' = 2usize']) if (constm and rng.random() < 0.5) else ''
+    cdef_n = rng.choice([' = 3', ' = 0b11', ' = { 4 - 1 }', ' = 3_usize']) if (constn and (cdef_m or not constm) and rng.random() < 0.4) else ''
+    # a third const parameter that no field uses, of another type, with a default that is not an integer literal (negative number, char, bool)
+    cextra = rng.choice(["const X: i32 = -1", "const Y: char = 'x'", "const Z: bool = true", "const X: i64 = -0x10"]) if (constn and (cdef_n or cdef_m) and (cdef_m or not constm) and cdef_n) else ''
+    if constn: gl.append("const N: usize" + cdef_n); feats.append('const_generic')
+    if constm: gl.append("const M: usize" + cdef_m); feats.append('two_const_generics')
+    if cdef_n or cdef_m: feats.append('const_default')
+    if cextra: gl.append(cextra); feats.append('const_default_expression')
     if lt: feats.append('lifetime')
     if lt2: feats.append('two_lifetimes')
     if tparams: feats.append('type_params_' + bound_style)
@@ -193,8 +199,8 @@ def gen_struct(rng, idx, allow_nested=True):
     where = f"\nwhere\n    {', '.join(wl)}," if wl else ''
     args = ', '.join((["'static"] if lt else []) + (["'static"] if lt2 else []) + ['i64' if j % 2 == 0 else 'String' for j, _ in enumerate(tparams)] + (['3'] if constn else []) + (['2'] if constm else []))
     inst = f"{name}<{args}>" if args else name
-    impl_gen = gen.replace(' = i64', '')
-    impl_args = ', '.join((["'" + lt] if lt else []) + (["'" + lt2] if lt2 else []) + tparams + (['N'] if constn else []) + (['M'] if constm else []))
+    impl_gen = re.sub(r"(const \w+: \w+) = (\{[^}]*\}|'.'|[-\w]+)", r'\1', gen.replace(' = i64', ''))
+    impl_args = ', '.join((["'" + lt] if lt else []) + (["'" + lt2] if lt2 else []) + tparams + (['N'] if constn else []) + (['M'] if constm else []) + ([cextra.split()[1].rstrip(':')] if cextra else []))
     mk_bounds = ', '.join([f"{t}: Mk" for t in tparams])
     svis = rng.choice(['pub ', '', 'pub '])
     sattr = rng.choice(['', '', '#[difference(setters)]\n', '#[difference(expose)]\n', f'#[difference(expose = "{name}Diff")]\n'])
@@ -343,6 +349,8 @@ KNOWN_BAD = {
          "#[derive(Debug, Clone, PartialEq, Difference)]\npub struct D<const N: usize = 0x2> { pub a: [u8; 4usize], pub b: [u8; 0x10], pub c: Option<[i64; 1_0]>, pub d: [u8; N], pub e: [bool; 0b11], pub n: u8 }\n"),
  'D26': ("an attribute value written as a raw string literal (expose = r#\"Name\"#, setter_name = r\"put\"): the quotes of a raw string were not taken off",
          "#[derive(Debug, Clone, PartialEq, Difference)]\n#[difference(expose = r#\"DDelta\"#)]\npub struct D { #[difference(collection_strategy = r\"unordered_array_like\", setter_name = r\"put_v\")] pub v: Vec<u8>, pub n: u8 }\n"),
+ 'D27': ("a const parameter whose default is an expression other than a plain integer literal or a path (const N: i32 = -1, const C: char = 'x', const M: usize = { 1 + 2 }): the derive panics",
+         "#[derive(Debug, Clone, PartialEq, Difference)]\npub struct D<const N: i32 = -1, const C: char = 'x', const M: usize = { 1 + 2 }> { pub a: [u8; M], pub n: u8 }\n"),
  'D7': ("trailing comma inside a difference attribute", "#[derive(Debug, Clone, PartialEq, Difference)]\npub struct D { #[difference(skip,)] pub f0: i64, pub f1: i64 }\n"),
  'D8': ("generic parameter used only behind a reference inside another type", "#[derive(Debug, Clone, PartialEq, Difference)]\npub struct D<'a, T> { pub o: Option<&'a T> }\n"),
  'D8b': ("generic parameter used only as the head of an associated-type path (same cause as D8: the used-parameter test compares the parameter's name with whole base strings)",
@@ -424,7 +432,7 @@ def gen_item(rng, i):
             s += ' = ' + rng.choice(['u8', 'Vec<u8>', '(u8, bool)', '[u8; 2]']); defaults_started = True
         params.append(s)
     if rng.random() < 0.4:
-        params.append('const N: usize' + (rng.choice([' = 4', ' = 0', ' = M']) if defaults_started or rng.random() < 0.3 else ''))
+        params.append('const N: usize' + (rng.choice([' = 4', ' = 0', ' = M', ' = 0x10', ' = 4usize', ' = { 1 + 2 }', ' = usize::MAX']) if defaults_started or rng.random() < 0.3 else ''))
     gen = ''
     if params or rng.random() < 0.1:
         gen = '<' + ', '.join(params) + (',' if params and rng.random() < 0.15 else '') + '>'
